@@ -2054,23 +2054,19 @@ public:
 
 	wt_ref_t wx, wy, wz;
 	
-	if (left.m_vert_map.size() < right.m_vert_map.size()) {
-	  return false;
-	}
-
-
 	std::vector<unsigned int> vert_renaming(right.m_graph.size(), -1);
 	for (auto p : right.m_vert_map) {
-	  auto it = left.m_vert_map.find(p.first);
-	  if (it == left.m_vert_map.end()) {
-	    return false;
-	  }
+	  // An unconstrained variable of o says nothing
 	  if (right.m_graph.succs(p.second.first).size() == 0 &&
 	      right.m_graph.succs(p.second.second).size() == 0 &&
 	      right.m_graph.preds(p.second.first).size() == 0 &&
 	      right.m_graph.preds(p.second.second).size() == 0)
 	    continue;
 	  
+	  auto it = left.m_vert_map.find(p.first);
+	  if (it == left.m_vert_map.end()) {
+	    return false;
+	  }
 	  vert_renaming[p.second.first] = (*it).second.first;
 	  vert_renaming[p.second.second] = (*it).second.second;
 	}
